@@ -121,127 +121,154 @@ def G (n : Nat) : Opd := .reg (.gpr n)
 def M (b : Nat) (disp : Int) : Opd := .mem (.gpr b) none 0 disp
 def L4 (a b c d : Nat) : Opd := .regs [.vec a, .vec b, .vec c, .vec d]
 
-/-! ## one lemma per instruction shape -/
+/-! ## one lemma per instruction shape
+
+  Side conditions are stated so that `by rfl` closes them on an explicit state (`v[d]? = some _` rather than
+  `d < v.length`: `simp` on a length goal traverses the whole symbolic register file). -/
+
+theorem lt_of_get {l : List Nat} {d x : Nat} (h : l[d]? = some x) : d < l.length :=
+  (List.getElem?_eq_some_iff.mp h).1
 
 section
 variable (g v : List Nat) (mem : List Region) (syms frame : List (String × Nat))
 
-theorem execD_veor (m n d mv nv : Nat) (hm : v[m]? = some mv) (hn : v[n]? = some nv) (hd : d < v.length) :
+theorem execD_veor (m n d mv nv : Nat) (hm : v[m]? = some mv) (hn : v[n]? = some nv) (hd0 : v[d]? = some d0) :
     execD ⟨g, v, mem, syms, frame⟩ (ins .VEOR [R m, R n, R d] [.B16, .B16, .B16])
       = .ok ⟨g, v.set d (veor mv nv), mem, syms, frame⟩ := by
+  have hd := lt_of_get hd0
   simp [execD, ins, R, exVec3, getV, setV, hm, hn, hd]
 
-theorem execD_vsub (m n d mv nv : Nat) (hm : v[m]? = some mv) (hn : v[n]? = some nv) (hd : d < v.length) :
+theorem execD_vsub (m n d mv nv : Nat) (hm : v[m]? = some mv) (hn : v[n]? = some nv) (hd0 : v[d]? = some d0) :
     execD ⟨g, v, mem, syms, frame⟩ (ins .VSUB [R m, R n, R d] [.B16, .B16, .B16])
       = .ok ⟨g, v.set d (vsubB mv nv), mem, syms, frame⟩ := by
+  have hd := lt_of_get hd0
   simp [execD, ins, R, exVec3, getV, setV, hm, hn, hd]
 
-theorem execD_vshl (sh : Int) (n d nv : Nat) (hsh : 0 ≤ sh ∧ sh ≤ 31) (hn : v[n]? = some nv) (hd : d < v.length) :
+theorem execD_vshl (sh : Int) (n d nv : Nat) (hsh : 0 ≤ sh ∧ sh ≤ 31) (hn : v[n]? = some nv) (hd0 : v[d]? = some d0) :
     execD ⟨g, v, mem, syms, frame⟩ (ins .VSHL [.imm sh, R n, R d] [.none, .S4, .S4])
       = .ok ⟨g, v.set d (vshlS sh.toNat nv), mem, syms, frame⟩ := by
+  have hd := lt_of_get hd0
   simp [execD, ins, R, exShift, getV, setV, hn, hd, hsh]
 
 theorem execD_vsri (sh : Int) (n d nv dv : Nat) (hsh : 1 ≤ sh ∧ sh ≤ 32) (hn : v[n]? = some nv)
-    (hdv : v[d]? = some dv) (hd : d < v.length) :
+    (hdv : v[d]? = some dv) :
     execD ⟨g, v, mem, syms, frame⟩ (ins .VSRI [.imm sh, R n, R d] [.none, .S4, .S4])
       = .ok ⟨g, v.set d (vsriS sh.toNat nv dv), mem, syms, frame⟩ := by
+  have hd : d < v.length := lt_of_get hdv
   have hdv' : v[d] = dv := by rw [List.getElem?_eq_getElem hd] at hdv; exact Option.some.inj hdv
   simp [execD, ins, R, exShift, getV, setV, hn, hdv', hd, hsh]
 
 theorem execD_vtbl (m n0 n1 n2 n3 d mv t0 t1 t2 t3 : Nat)
     (hc : n1 = (n0 + 1) % 32 ∧ n2 = (n0 + 2) % 32 ∧ n3 = (n0 + 3) % 32)
     (hm : v[m]? = some mv) (h0 : v[n0]? = some t0) (h1 : v[n1]? = some t1) (h2 : v[n2]? = some t2)
-    (h3 : v[n3]? = some t3) (hd : d < v.length) :
+    (h3 : v[n3]? = some t3) (hd0 : v[d]? = some d0) :
     execD ⟨g, v, mem, syms, frame⟩ (ins .VTBL [R m, L4 n0 n1 n2 n3, R d] [.B16, .B16, .B16])
       = .ok ⟨g, v.set d (vtbl (tableBytes [t0, t1, t2, t3]) mv), mem, syms, frame⟩ := by
+  have hd := lt_of_get hd0
   simp [execD, ins, R, L4, exTable, listRegs, hc.1.symm, hc.2.1.symm, hc.2.2.symm, getV, setV, hm, h0, h1, h2, h3, hd]
 
 theorem execD_tbx (m n0 n1 n2 n3 d mv dv t0 t1 t2 t3 : Nat)
     (hc : n1 = (n0 + 1) % 32 ∧ n2 = (n0 + 2) % 32 ∧ n3 = (n0 + 3) % 32)
     (hm : v[m]? = some mv) (h0 : v[n0]? = some t0) (h1 : v[n1]? = some t1) (h2 : v[n2]? = some t2)
-    (h3 : v[n3]? = some t3) (hdv : v[d]? = some dv) (hd : d < v.length) :
+    (h3 : v[n3]? = some t3) (hdv : v[d]? = some dv) :
     execD ⟨g, v, mem, syms, frame⟩ (ins .TBX [R m, L4 n0 n1 n2 n3, R d] [.B16, .B16, .B16])
       = .ok ⟨g, v.set d (vtbx (tableBytes [t0, t1, t2, t3]) mv dv), mem, syms, frame⟩ := by
+  have hd : d < v.length := lt_of_get hdv
   have hdv' : v[d] = dv := by rw [List.getElem?_eq_getElem hd] at hdv; exact Option.some.inj hdv
   simp [execD, ins, R, L4, exTable, listRegs, hc.1.symm, hc.2.1.symm, hc.2.2.symm, getV, setV, hm, h0, h1, h2, h3,
     hdv', hd]
 
-theorem execD_vrev32 (n d nv : Nat) (hn : v[n]? = some nv) (hd : d < v.length) :
+theorem execD_vrev32 (n d nv : Nat) (hn : v[n]? = some nv) (hd0 : v[d]? = some d0) :
     execD ⟨g, v, mem, syms, frame⟩ (ins .VREV32 [R n, R d] [.B16, .B16])
       = .ok ⟨g, v.set d (vrev32 nv), mem, syms, frame⟩ := by
+  have hd := lt_of_get hd0
   simp [execD, ins, R, exMove, getV, setV, hn, hd]
 
-theorem execD_vmovi (imm : Int) (d : Nat) (hi : 0 ≤ imm ∧ imm ≤ 255) (hd : d < v.length) :
+theorem execD_vmovi (imm : Int) (d : Nat) (hi : 0 ≤ imm ∧ imm ≤ 255) (hd0 : v[d]? = some d0) :
     execD ⟨g, v, mem, syms, frame⟩ (ins .VMOVI [.imm imm, R d] [.none, .B16])
       = .ok ⟨g, v.set d (vmovi8 imm.toNat), mem, syms, frame⟩ := by
+  have hd := lt_of_get hd0
   simp [execD, ins, R, exMove, setV, hd, hi]
 
-theorem execD_vmov_elem (n d i j nv dv : Nat) (hij : i < 4 ∧ j < 4) (hn : v[n]? = some nv) (hdv : v[d]? = some dv)
-    (hd : d < v.length) :
+theorem execD_vmov_elem (n d i j nv dv : Nat) (hij : i < 4 ∧ j < 4) (hn : v[n]? = some nv) (hdv : v[d]? = some dv) :
     execD ⟨g, v, mem, syms, frame⟩ (ins .VMOV [R n, R d] [.S i, .S j])
       = .ok ⟨g, v.set d (setLaneS j dv (lane 32 i nv)), mem, syms, frame⟩ := by
+  have hd : d < v.length := lt_of_get hdv
   have hdv' : v[d] = dv := by rw [List.getElem?_eq_getElem hd] at hdv; exact Option.some.inj hdv
   simp [execD, ins, R, exMove, getV, setV, hn, hdv', hd, hij]
 
-theorem execD_movd_sym (name : String) (off d a : Nat) (hs : lookup syms name = some a) (hd : d < g.length) :
+theorem execD_movd_sym (name : String) (off d a : Nat) (hs : lookup syms name = some a) (hd0 : g[d]? = some d0) :
     execD ⟨g, v, mem, syms, frame⟩ (ins .MOVD [.symAddr name off, G d] [.none, .none])
       = .ok ⟨g.set d (a + off), v, mem, syms, frame⟩ := by
+  have hd := lt_of_get hd0
   simp [execD, ins, G, exGeneral, hs, setG, hd]
 
-theorem execD_movd_frame (name : String) (off d a : Nat) (hs : lookup frame name = some a) (hd : d < g.length) :
+theorem execD_movd_frame (name : String) (off d a : Nat) (hs : lookup frame name = some a) (hd0 : g[d]? = some d0) :
     execD ⟨g, v, mem, syms, frame⟩ (ins .MOVD [.frame name off, G d] [.none, .none])
       = .ok ⟨g.set d a, v, mem, syms, frame⟩ := by
+  have hd := lt_of_get hd0
   simp [execD, ins, G, exGeneral, hs, setG, hd]
 
-theorem execD_add (imm : Int) (n d x : Nat) (hi : 0 ≤ imm ∧ imm < 4096) (hn : g[n]? = some x) (hd : d < g.length) :
+theorem execD_add (imm : Int) (n d x : Nat) (hi : 0 ≤ imm ∧ imm < 4096) (hn : g[n]? = some x) (hd0 : g[d]? = some d0) :
     execD ⟨g, v, mem, syms, frame⟩ (ins .ADD [.imm imm, G n, G d] [.none, .none, .none])
       = .ok ⟨g.set d ((x + imm.toNat) % 2 ^ 64), v, mem, syms, frame⟩ := by
+  have hd := lt_of_get hd0
   simp [execD, ins, G, exGeneral, getG, setG, hn, hd, hi]
 
-theorem execD_sub (imm : Int) (n d x : Nat) (hi : 0 ≤ imm ∧ imm < 4096) (hn : g[n]? = some x) (hd : d < g.length) :
+theorem execD_sub (imm : Int) (n d x : Nat) (hi : 0 ≤ imm ∧ imm < 4096) (hn : g[n]? = some x) (hd0 : g[d]? = some d0) :
     execD ⟨g, v, mem, syms, frame⟩ (ins .SUB [.imm imm, G n, G d] [.none, .none, .none])
       = .ok ⟨g.set d ((x + 2 ^ 64 - imm.toNat) % 2 ^ 64), v, mem, syms, frame⟩ := by
+  have hd := lt_of_get hd0
   simp [execD, ins, G, exGeneral, getG, setG, hn, hd, hi]
 
 /-- `VLD1.P 4(Rb), Vd.S[i]` -/
 theorem execD_ld1p_lane (b d i gb dv : Nat) (bs : List Nat) (hi : i < 4)
-    (hb : g[b]? = some gb) (hdv : v[d]? = some dv) (hd : d < v.length) (hbl : b < g.length)
+    (hb : g[b]? = some gb) (hdv : v[d]? = some dv)
     (hload : readMem mem gb 4 = .ok bs) :
     execD ⟨g, v, mem, syms, frame⟩ (ins .VLD1P [M b 4, R d] [.none, .S i])
       = .ok ⟨g.set b ((gb + 4) % 2 ^ 64), v.set d (setLaneS i dv (unlanes 8 bs)), mem, syms, frame⟩ := by
+  have hbl := lt_of_get hb
+  have hd : d < v.length := lt_of_get hdv
   have hdv' : v[d] = dv := by rw [List.getElem?_eq_getElem hd] at hdv; exact Option.some.inj hdv
   have hb' : g[b] = gb := by rw [List.getElem?_eq_getElem hbl] at hb; exact Option.some.inj hb
   simp [execD, ins, R, M, exLd1, baseAddr, getG, getV, setV, setG, loadBytes, writeBack, hb', hdv', hd, hbl, hi, hload]
 
 /-- `VLD1 (Rb), [Vd.S4]` -/
 theorem execD_ld1_one (b d gb : Nat) (bs : List Nat)
-    (hb : g[b]? = some gb) (hd : d < v.length) (hload : readMem mem gb 16 = .ok bs) :
+    (hb : g[b]? = some gb) (hd0 : v[d]? = some d0) (hload : readMem mem gb 16 = .ok bs) :
     execD ⟨g, v, mem, syms, frame⟩ (ins .VLD1 [M b 0, .regs [.vec d]] [.none, .S4])
       = .ok ⟨g, v.set d (unlanes 8 (bs.take 16)), mem, syms, frame⟩ := by
+  have hd := lt_of_get hd0
   simp [execD, ins, M, exLd1, baseAddr, listRegs, getG, setV, loadBytes, writeBack, hb, hd, hload,
     List.range, List.range.loop, List.foldlM]
 
 /-- `VLD1.P 64(Rb), [Va.B16, Va+1.B16, Va+2.B16, Va+3.B16]` -/
 theorem execD_ld1p_four (b n0 n1 n2 n3 gb : Nat) (bs : List Nat)
     (hc : n1 = (n0 + 1) % 32 ∧ n2 = (n0 + 2) % 32 ∧ n3 = (n0 + 3) % 32)
-    (hb : g[b]? = some gb) (hbl : b < g.length)
-    (h0 : n0 < v.length) (h1 : n1 < v.length) (h2 : n2 < v.length) (h3 : n3 < v.length)
+    (hb : g[b]? = some gb)
+    (e0 : v[n0]? = some x0) (e1 : v[n1]? = some x1) (e2 : v[n2]? = some x2) (e3 : v[n3]? = some x3)
     (hload : readMem mem gb 64 = .ok bs) :
     execD ⟨g, v, mem, syms, frame⟩ (ins .VLD1P [M b 64, L4 n0 n1 n2 n3] [.none, .B16])
       = .ok ⟨g.set b ((gb + 64) % 2 ^ 64),
           (((v.set n0 (unlanes 8 (bs.take 16))).set n1 (unlanes 8 ((bs.drop 16).take 16))).set n2
             (unlanes 8 ((bs.drop 32).take 16))).set n3 (unlanes 8 ((bs.drop 48).take 16)),
           mem, syms, frame⟩ := by
+  have hbl := lt_of_get hb
+  have h0 := lt_of_get e0
+  have h1 := lt_of_get e1
+  have h2 := lt_of_get e2
+  have h3 := lt_of_get e3
   have hb' : g[b] = gb := by rw [List.getElem?_eq_getElem hbl] at hb; exact Option.some.inj hb
   simp [execD, ins, M, L4, exLd1, baseAddr, listRegs, hc.1.symm, hc.2.1.symm, hc.2.2.symm, getG, setV, setG,
     loadBytes, writeBack, hb', hbl, h0, h1, h2, h3, hload, List.range, List.range.loop, List.foldlM]
 
 /-- `VST1.P Vn.S[i], 4(Rb)` -/
 theorem execD_st1p_lane (b n i gb nv : Nat) (mem' : List Region) (hi : i < 4)
-    (hb : g[b]? = some gb) (hn : v[n]? = some nv) (hbl : b < g.length)
+    (hb : g[b]? = some gb) (hn : v[n]? = some nv)
     (hstore : writeMem mem gb (lanes 8 4 (lane 32 i nv)) = .ok mem') :
     execD ⟨g, v, mem, syms, frame⟩ (ins .VST1P [R n, M b 4] [.S i, .none])
       = .ok ⟨g.set b ((gb + 4) % 2 ^ 64), v, mem', syms, frame⟩ := by
+  have hbl := lt_of_get hb
   have hb' : g[b] = gb := by rw [List.getElem?_eq_getElem hbl] at hb; exact Option.some.inj hb
   simp [execD, ins, R, M, exSt1, baseAddr, getG, getV, setG, storeBytes, writeBack, hb', hn, hbl, hi, hstore]
 
